@@ -79,6 +79,7 @@ type Frame struct {
 type localRef struct {
 	v      ssa.Value
 	isAddr bool
+	obj    types.Object
 }
 
 const (
